@@ -172,7 +172,7 @@ func (e *kvElection) handleWatchEvent(ctx context.Context, entry Entry) {
 	if entry == nil {
 		log := e.getLogger()
 		log.Debug("watch_event_key_deleted",
-			append(e.logWithContext(e.ctx),
+			append(e.logWithContext(e.logCtx()),
 				zap.String("key", e.key),
 			)...,
 		)
@@ -184,7 +184,7 @@ func (e *kvElection) handleWatchEvent(ctx context.Context, entry Entry) {
 	if len(valueBytes) == 0 {
 		log := e.getLogger()
 		log.Debug("watch_event_key_empty",
-			append(e.logWithContext(e.ctx),
+			append(e.logWithContext(e.logCtx()),
 				zap.String("key", e.key),
 			)...,
 		)
@@ -208,7 +208,7 @@ func (e *kvElection) handleWatchEvent(ctx context.Context, entry Entry) {
 		if newLeaderID != e.cfg.InstanceID && entry.Revision() > e.revision.Load() {
 			log := e.getLogger()
 			log.Warn("leadership_lost_via_watcher",
-				append(e.logWithContext(e.ctx),
+				append(e.logWithContext(e.logCtx()),
 					zap.String("new_leader_id", newLeaderID),
 					zap.Uint64("revision", entry.Revision()),
 				)...,
@@ -224,7 +224,7 @@ func (e *kvElection) handleWatchEvent(ctx context.Context, entry Entry) {
 	if currentLeaderID != newLeaderID {
 		log := e.getLogger()
 		log.Info("leader_changed",
-			append(e.logWithContext(e.ctx),
+			append(e.logWithContext(e.logCtx()),
 				zap.String("old_leader_id", currentLeaderID),
 				zap.String("new_leader_id", newLeaderID),
 				zap.Uint64("revision", entry.Revision()),
@@ -239,7 +239,7 @@ func (e *kvElection) handleWatchEvent(ctx context.Context, entry Entry) {
 	if e.cfg.AllowPriorityTakeover && e.cfg.Priority > payload.Priority {
 		log := e.getLogger()
 		log.Info("priority_takeover_opportunity",
-			append(e.logWithContext(e.ctx),
+			append(e.logWithContext(e.logCtx()),
 				zap.String("current_leader", currentLeaderID),
 				zap.Int("current_priority", payload.Priority),
 				zap.Int("our_priority", e.cfg.Priority),
@@ -253,7 +253,7 @@ func (e *kvElection) handleWatchEvent(ctx context.Context, entry Entry) {
 			if err := e.attemptAcquire(); err != nil {
 				// Takeover failed - stay as follower
 				log.Debug("priority_takeover_failed",
-					append(e.logWithContext(e.ctx),
+					append(e.logWithContext(e.logCtx()),
 						zap.Error(err),
 					)...,
 				)
